@@ -27,6 +27,12 @@ def to_z3(v):
         if v == int(v):
             return z3.RealVal(int(v))
         return z3.RealVal(repr(v))
+    import numbers
+
+    if isinstance(v, numbers.Integral):
+        return z3.IntVal(int(v))
+    if isinstance(v, numbers.Real):
+        return to_z3(float(v))
     raise TypeError(f"to_z3: {type(v)}")
 
 
